@@ -311,6 +311,23 @@ theorem readRequest_total_source (flex : Bool) (t : Ty) (stream : Bytes) :
     Safe (readRequest Gen.decoderCfg flex t stream) :=
   readRequest_total_bounded _ source_decoder_is_bounded (fun h hh => by simp [Gen.decoderCfg] at hh) flex t stream
 
+/-! ### the SASL raw exchange -/
+
+/-- **C20, un-framed SASL token** (`protocol.Conn.RoundTrip` → `RawExchange` when the broker speaks SaslHandshake v0): whatever the
+4-byte length says — negative, 2^31-1 — the outcome is the token or an error. -/
+theorem saslReadResp_safe (c : SaslCfg) (h1 : c.negChecked = true) (h2 : c.grows = true) (stream : Bytes) :
+    Safe (saslReadResp c stream) := by
+  unfold saslReadResp
+  refine bind_safe _ _ (readInt_safe 4 _) fun n d => ?_
+  split
+  · simp [h1, Safe]
+  · split <;> simp [h2, Safe]
+
+theorem source_sasl_guards : Gen.saslCfg.negChecked = true ∧ Gen.saslCfg.grows = true := by decide
+
+theorem saslReadResp_safe_source (stream : Bytes) : Safe (saslReadResp Gen.saslCfg stream) :=
+  saslReadResp_safe _ source_sasl_guards.1 source_sasl_guards.2 stream
+
 /-! ### record sets: `RecordSet.ReadFrom`, `readFromVersion1`, `readFromVersion2` inside the frame decoder -/
 
 theorem recsHandler_safe (rc : KV.RecordScan.RCfg) (hg : rc.allGuards = true) (crcI crcC : Bytes → Nat)
@@ -455,6 +472,10 @@ def brokersTy : Ty := .struct false [.array false false (.struct false [.int32, 
 
 def isBalloon {α : Type} : Res α → Bool | .balloon => true | _ => false
 def isPanic {α : Type} : Res α → Bool | .panic => true | _ => false
+
+/-- SASL raw exchange: without the negative test, `ff ff ff ff` panics; with an allocation sized by the length, 6 bytes ask for 2 GiB -/
+theorem sasl_negative_counterexample : isPanic (saslReadResp ⟨false, true⟩ [0xff, 0xff, 0xff, 0xff]) = true := by decide
+theorem sasl_alloc_counterexample : isBalloon (saslReadResp ⟨true, false⟩ [0x7f, 0xff, 0xff, 0xff, 1, 2]) = true := by decide
 
 theorem alloc_counterexample :
     isBalloon (readResponse unbounded false brokersTy [0,0,0,8, 0,0,0,7, 0x7f,0xff,0xff,0xff]) = true := by decide
